@@ -66,11 +66,31 @@ type c19Case struct {
 	method bool
 	kinds  []int
 	vals   []int
+	// twins: a callee that shares its bare name with another callee of a different
+	// signature: a method of the same name on receiver type U, or a function of the
+	// same name in package example.com/vp/sub.
+	recvU bool
+	sub   bool
+}
+
+// complete is the symbol of the callee as the traceback prints it.
+func (c *c19Case) complete() string {
+	switch {
+	case c.sub:
+		return "example.com/vp/sub." + c.name
+	case c.method && c.recvU:
+		return "main.(*U)." + c.name
+	case c.method:
+		return "main.(*T)." + c.name
+	}
+	return "main." + c.name
 }
 
 func (c *c19Case) wants() []string {
 	var w []string
-	if c.method {
+	if c.method && c.recvU {
+		w = append(w, `\*U\(`+ptrRe+`\)`)
+	} else if c.method {
 		w = append(w, `\*T\(`+ptrRe+`\)`)
 	}
 	for i, k := range c.kinds {
@@ -107,6 +127,46 @@ func c19Cases(maxLen int) []c19Case {
 		}
 	}
 	rec(nil)
+	// twins of every 5th callee: same bare name, different parameter list
+	kindT := -1
+	kindPtrInt := -1
+	for i, k := range c19Kinds {
+		switch k.typ {
+		case "*T":
+			kindT = i
+		case "*int":
+			kindPtrInt = i
+		}
+	}
+	base := len(out)
+	for i := 0; i < base; i++ {
+		if i%5 != 2 && i%5 != 3 {
+			continue
+		}
+		o := out[i]
+		tw := c19Case{name: o.name, method: o.method, recvU: o.method, sub: !o.method}
+		tw.kinds = append(tw.kinds, (o.kinds[0]+3+i)%len(c19Kinds))
+		for k := len(o.kinds) - 1; k >= 0; k-- {
+			tw.kinds = append(tw.kinds, o.kinds[k])
+		}
+		if len(tw.kinds) > maxLen+1 {
+			tw.kinds = tw.kinds[:maxLen+1]
+		}
+		for k := range tw.kinds {
+			if tw.sub && tw.kinds[k] == kindT {
+				tw.kinds[k] = kindPtrInt // package sub does not know main's T
+			}
+			tw.vals = append(tw.vals, (i+1+k*2)%len(c19Kinds[tw.kinds[k]].vals))
+		}
+		same := len(tw.kinds) == len(o.kinds)
+		for k := 0; same && k < len(tw.kinds); k++ {
+			same = tw.kinds[k] == o.kinds[k]
+		}
+		if same {
+			continue
+		}
+		out = append(out, tw)
+	}
 	return out
 }
 
@@ -117,9 +177,35 @@ func c19WriteProgram(dir string, cases []c19Case, mutate func(src string) string
 	var files []string
 	per := 400
 	var calls []string
+	// package sub: the twins that are functions
+	var sb strings.Builder
+	sb.WriteString("package sub\n\n// Park is set by package main.\nvar Park func()\n\n")
+	nSub := 0
+	for _, c := range cases {
+		if !c.sub {
+			continue
+		}
+		nSub++
+		var params, names []string
+		for i, k := range c.kinds {
+			params = append(params, fmt.Sprintf("p%d %s", i, c19Kinds[k].typ))
+			names = append(names, fmt.Sprintf("p%d", i))
+		}
+		fmt.Fprintf(&sb, "func %s(%s) {\n\tPark()\n}\n\n", c.name, strings.Join(params, ", "))
+		fmt.Fprintf(&sb, "// Call%s forwards to %s.\nfunc Call%s(%s) {\n\t%s(%s)\n}\n\n", c.name, c.name, c.name, strings.Join(params, ", "), c.name, strings.Join(names, ", "))
+	}
+	_ = os.MkdirAll(filepath.Join(dir, "sub"), 0o755)
+	_ = os.WriteFile(filepath.Join(dir, "sub", "sub.go"), []byte(sb.String()), 0o644)
+	files = append(files, filepath.Join(dir, "sub", "sub.go"))
 	for start := 0; start < len(cases); start += per {
 		var b strings.Builder
 		b.WriteString("package main\n\n")
+		for ci := start; ci < start+per && ci < len(cases); ci++ {
+			if cases[ci].sub {
+				b.WriteString("import \"example.com/vp/sub\"\n\n")
+				break
+			}
+		}
 		end := start + per
 		if end > len(cases) {
 			end = len(cases)
@@ -129,6 +215,17 @@ func c19WriteProgram(dir string, cases []c19Case, mutate func(src string) string
 			for i, k := range c.kinds {
 				params = append(params, fmt.Sprintf("p%d %s", i, c19Kinds[k].typ))
 				args = append(args, c19Kinds[k].vals[c.vals[i]].expr)
+			}
+			if c.sub {
+				fmt.Fprintf(&b, "func callsub%s() {\n\tsub.Call%s(%s)\n}\n\n", c.name, c.name, strings.Join(args, ", "))
+				calls = append(calls, "callsub"+c.name)
+				continue
+			}
+			if c.method && c.recvU {
+				fmt.Fprintf(&b, "func (r *U) %s(%s) {\n\tpark()\n}\n\n", c.name, strings.Join(params, ", "))
+				fmt.Fprintf(&b, "func callu%s() {\n\t(&U{}).%s(%s)\n}\n\n", c.name, c.name, strings.Join(args, ", "))
+				calls = append(calls, "callu"+c.name)
+				continue
 			}
 			if c.method {
 				fmt.Fprintf(&b, "func (r *T) %s(%s) {\n\tpark()\n}\n\n", c.name, strings.Join(params, ", "))
@@ -153,9 +250,13 @@ import (
 	"math"
 	"strings"
 	"sync"
+
+	"example.com/vp/sub"
 )
 
 type T struct{ a, b int }
+
+type U struct{ c string }
 
 var (
 	ready   sync.WaitGroup
@@ -174,6 +275,7 @@ func park() {
 }
 
 func main() {
+	sub.Park = park
 	cases := []func(){` + strings.Join(calls, ", ") + `}
 	ready.Add(len(cases))
 	for _, c := range cases {
@@ -253,7 +355,7 @@ func TestVerifC19(t *testing.T) {
 	}
 	defer os.RemoveAll(root)
 	cases := c19Cases(maxLen)
-	r.Set("rule", fmt.Sprintf("generated program: every parameter list of length 1..%d over %d kinds (bool, sized/unsized ints, floats, string, slices, pointers, map, chan, func), each as a function and as a pointer-receiver method (%d callees), boundary values rotating over the kinds' value tables; built with -gcflags 'all=-N -l' by the installed toolchain(s), every case parked in its callee, one real crash under GOTRACEBACK=all; the real traceback is parsed with source analysis on and off; oracle: each rendered argument matches an independent rendering of the literal passed; raw values identical with analysis on and off; mismatch part: the same dump against the source tree deleted / unparsable / line-shifted / with parameters added or removed / with 0 or 2 receivers / replaced by directories: no panic, everything but the typed rendering equal to the un-augmented parse, no rendering when the source is missing or unparsable. programs = toolchains x generated programs; non-trivial = callee with >= 2 parameters or a method", maxLen, len(c19Kinds), len(cases)))
+	r.Set("rule", fmt.Sprintf("generated program: every parameter list of length 1..%d over %d kinds (bool, sized/unsized ints, floats, string, slices, pointers, map, chan, func), each as a function and as a pointer-receiver method, plus twins of 2 in 5 of them that share the bare name with a different parameter list (a method on another receiver type, a function in another package) (%d callees), boundary values rotating over the kinds' value tables; built with -gcflags 'all=-N -l' by the installed toolchain(s), every case parked in its callee, one real crash under GOTRACEBACK=all; the real traceback is parsed with source analysis on and off; oracle: each rendered argument matches an independent rendering of the literal passed; raw values identical with analysis on and off; mismatch part: the same dump against the source tree deleted / unparsable / line-shifted / with parameters added or removed / with 0 or 2 receivers / replaced by directories: no panic, everything but the typed rendering equal to the un-augmented parse, no rendering when the source is missing or unparsable. programs = toolchains x generated programs; non-trivial = callee with >= 2 parameters or a method", maxLen, len(c19Kinds), len(cases)))
 	r.Set("assumptions", []string{"-N -l makes the traceback's argument words accurate", "a shifted line that still falls inside some function cannot be detected from a line number: only harmlessness is required there", "value receivers, variadic parameters, interfaces, structs and arrays are outside the statement's list of kinds"})
 	toolchains := []string{"go"}
 	if r.Thorough() {
@@ -297,25 +399,19 @@ func TestVerifC19(t *testing.T) {
 		for _, g := range on.snap.Goroutines {
 			for i := range g.Stack.Calls {
 				c := &g.Stack.Calls[i]
-				n := c.Func.Name
-				if j := strings.LastIndexByte(n, '.'); j >= 0 {
-					n = n[j+1:]
-				}
-				if (strings.HasPrefix(n, "f") || strings.HasPrefix(n, "m")) && c.Func.IsPkgMain {
-					frameOf[n] = c
-				}
+				frameOf[c.Func.Complete] = c
 			}
 		}
 		for ci := range cases {
 			c := &cases[ci]
-			key := fmt.Sprintf("%s tc%d %s(%v)", c.name, ti, func() string {
+			key := fmt.Sprintf("%s tc%d %s(%v)", c.complete(), ti, func() string {
 				var ks []string
 				for i, k := range c.kinds {
 					ks = append(ks, c19Kinds[k].typ+"="+c19Kinds[k].vals[c.vals[i]].expr)
 				}
 				return strings.Join(ks, ", ")
 			}(), c.method)
-			fr := frameOf[c.name]
+			fr := frameOf[c.complete()]
 			out := "ok"
 			switch {
 			case fr == nil:
@@ -340,7 +436,7 @@ func TestVerifC19(t *testing.T) {
 				}
 				for i := range wants {
 					if !regexp.MustCompile("^" + wants[i] + "$").MatchString(got[i]) {
-						pk := "*T receiver"
+						pk := "receiver"
 						idx := i
 						if c.method {
 							idx--
